@@ -87,6 +87,12 @@ def generate(seed, tier):
                 if rng.random() < 0.6 and solver.safe_reference(ref, th0, x0, t0, d["obs_t"]) is not None:
                     lb[k_] = 0.0
             start = [round(rng.uniform(l + 0.05 * (u - l), u - 0.05 * (u - l)), 4) for l, u in zip(lb, ub)]
+        if at_truth and rng.random() < 0.3:
+            # whole-number lower bounds (0 or 1 below the value) with fractional upper bounds just above the generating
+            # values: the kind of box whose two sides have different number types
+            import math as _m
+            lb = [float(_m.floor(v)) if rng.random() < 0.5 else 0.0 for v in start]
+            ub = [round(v * rng.uniform(1.1, 1.6) + 0.013, 4) for v in start]
         if hard and rng.random() < 0.4:
             # lower bounds of exactly 0 on every parameter that tolerates it, start near the upper faces: the first
             # trial step of the search tends to land on the corner, where a gamma / count likelihood of a (numerically)
@@ -114,7 +120,8 @@ def generate(seed, tier):
             batch = "fault_injecting"
         ops.append({"op": "fit", "id": "L1", "start": start, "lb": lb, "ub": ub, "at_truth": at_truth,
                     "truth": [theta[i] for i in bidx], "plain_output": rng.random() < 0.5,
-                    "bounds_as": rng.choice(["array", "array", "list", "int_where_whole", "tuple"])})
+                    "bounds_as": rng.choice(["int_where_whole", "int_where_whole", "array", "list"])
+                    if all(float(v) == int(v) for v in lb) else rng.choice(["array", "array", "list", "int_where_whole", "tuple"])})
         return {"engine": "solver", "problem": name, "model": model, "theta": theta, "x0": x0, "t0": t0, "env": env,
                 "ops": ops, "batch": batch, "box": box}
     raise core.HarnessError("no C18 case")
